@@ -225,7 +225,6 @@ func runC16(cfg *Cfg, rec *ev.Rec) {
 		rec.Eval("group-law")
 	}
 	apiRounds(cfg, rec, cfg.n(160, 3200), "c16-api")
-	rec.Sample(map[string]interface{}{"layout": mon.Layout, "scalar_mults": n})
 }
 
 func replayGroup(rec *ev.Rec, c map[string]interface{}) {
